@@ -472,10 +472,11 @@ def pair_frame(B, angle=0.0):
 def near_repeated_stretch(Q, c0, c2, gap):
     """Symmetric stretch U = Q diag(sqrt(c0), sqrt(c1), sqrt(c2)) Q^T whose square has the eigenvalues (c0, c1, c2) with
     c1 = c0 + gap * max(c): relative gap `gap` (neighbouring gap / largest eigenvalue, the measure of rel_gap_sym and
-    stretch_info) between the pair (c0, c1); c2 must be far from the pair (asserted: by more than 10 gaps)."""
+    stretch_info) between the pair (c0, c1); c2 must stay away from the pair by more than 2 gaps (asserted), so that the pair
+    is the closest pair and `gap` is the measured relative gap."""
     c0, c2, gap = float(c0), float(c2), float(gap)
     c1 = c0 + gap * c2 if c2 >= c0 / (1.0 - gap) else c0 / (1.0 - gap)
-    assert c0 > 0.0 and c2 > 0.0 and min(abs(c2 - c0), abs(c2 - c1)) > 10.0 * gap * max(c1, c2), (c0, c1, c2, gap)
+    assert c0 > 0.0 and c2 > 0.0 and min(abs(c2 - c0), abs(c2 - c1)) > 2.0 * gap * max(c1, c2), (c0, c1, c2, gap)
     lam = onp.sqrt(onp.array([c0, c1, c2]))
     Q = onp.asarray(Q, dtype=float)
     return (Q * lam[None, :]) @ Q.T
